@@ -310,6 +310,26 @@ def c18_monitor(case, frames):
                     continue
                 was_popped.add(b)
     popped = [b for b in finish_order if b in was_popped]
+    # every bar that finishes in pop mode and is not no-pop is popped out — remove-on-complete or not — unless it hands its place to
+    # bars parked behind it: the cycle after the one that flushed its second terminal frame flushes its third (shutdown = 2)
+    parked_behind, handed = set(), set()
+    ho = dict((seq, b) for seq, b, ci in handovers(case))
+    for seq, k, a in events(case):
+        if k == "CT_ADD" and a[1] != "after=-1" and int(a[1][6:]) not in handed:
+            parked_behind.add(int(a[1][6:]))
+        elif k == "CT_FLUSHBAR" and seq in ho:
+            handed.add(ho[seq])
+    hand_cycle = dict((b, ci) for seq, b, ci in handovers(case))
+    cyc_all = cycles(case)
+    failed = any(k in ("CT_RENDERERR", "OUTERR") for _, k, _ in events(case))
+    for b in finish_order:
+        if b in parked_behind or b not in hand_cycle or failed:
+            continue
+        later = [c for c in cyc_all[hand_cycle[b] + 1:] if c["frame"] is not None]
+        if later and not any(x == b and sh == 2 for (x, sh, n, rm, np) in later[0]["flushed"]):
+            return ("bar %d finished in pop-completed mode (second terminal frame flushed in the cycle beginning at event %d, no bar parked "
+                    "behind it, not no-pop) but the next cycle (event %d) does not pop it out: it left the container without its final row "
+                    "being moved to the top" % (b, cyc_all[hand_cycle[b]]["begin"], later[0]["begin"]), "finished-bar-not-popped-out")
     final = scr.lines
     rows = [int(i[1]) for i in final if i[0] == "r"]
     for b in popped:
@@ -559,6 +579,14 @@ def c03_monitor(case, frames):
                              if x == b and ((sh == 1 and (rm or b in succ_of)) or (sh == 2 and case["cfg"][5] == "1" and not np)))
             if len(cyc) - 1 > first_gone:
                 return ("bar %d was removed in cycle %d but is in the last frame" % (b, first_gone), "removed-bar-in-last-frame")
+            # removed WITH the last frame (second terminal frame, bar set to be removed or relieved by parked bars): the frame that
+            # removes a bar still shows it, and a refreshing container draws another one, without it, before Wait returns
+            removed_now = any(x == b and sh == 1 and (rm or b in succ_of) and not (case["cfg"][5] == "1" and not np and b not in succ_of)
+                              for (x, sh, n, rm, np) in last["flushed"])
+            failed = any(k in ("CT_RENDERERR", "OUTERR") for _, k, _ in evs)
+            if removed_now and not failed:
+                return ("bar %d is removed from the container by the last cycle (event %d), whose frame still shows it: no closing frame "
+                        "without it was drawn before Wait returned" % (b, last["begin"]), "no-frame-after-last-removal")
     # every terminal bar still in the container is in the last frame
     for (b, sh, n, rm, np) in last["flushed"]:
         if b not in ids and n > 0:
